@@ -66,12 +66,41 @@ def _flat(t: ast.AST) -> Iterator[ast.AST]:
         yield t
 
 
+def _read_modify_write(n: ast.Assign):
+    """`X[k] = X[k] + c` / `X[k] = X.get(k, 0) + c` (also `-`) is the
+    augmented assignment `X[k] += c`; returns (op, c) or None."""
+    if len(n.targets) != 1 or not isinstance(n.targets[0], ast.Subscript):
+        return None
+    v = n.value
+    if not (isinstance(v, ast.BinOp) and isinstance(v.op, (ast.Add, ast.Sub))):
+        return None
+    t = n.targets[0]
+    base, key = ast.unparse(t.value), ast.unparse(t.slice)
+    left = v.left
+    same = ast.unparse(left) == ast.unparse(t)
+    if not same and isinstance(left, ast.Call) and isinstance(
+            left.func, ast.Attribute) and left.func.attr == 'get' and (
+            ast.unparse(left.func.value) == base) and len(left.args) == 2 \
+            and ast.unparse(left.args[0]) == key and isinstance(
+            left.args[1], ast.Constant) and left.args[1].value == 0:
+        same = True
+    return (v.op, v.right) if same else None
+
+
 def writes(fn_node: ast.AST, obj: str = 'self') -> list[Write]:
     """All writes to fields of `obj` in the function (nested lambdas are
     skipped; nested statements are included)."""
     out: list[Write] = []
     for n in ast.walk(fn_node):
         if isinstance(n, ast.Assign):
+            rmw = _read_modify_write(n)
+            if rmw is not None:
+                r = root_field(n.targets[0], obj)
+                if r:
+                    out.append(Write(
+                        r[0], 'aug', n, n.targets[0], r[1], rmw[1], rmw[0],
+                    ))
+                    continue
             for t in n.targets:
                 for tt in _flat(t):
                     r = root_field(tt, obj)
